@@ -258,7 +258,8 @@ impl Scenario for C02 {
         let p_keep = rng.below(4); // out of 8: duplicate-delivery rate
         let p_drop = rng.below(3);
         let p_dup_a = rng.below(3);
-        let check_every = *rng.pick(&[1usize, 4, 16, 64, 256]);
+        // a deep check costs O(k): keep its frequency in proportion
+        let check_every = (*rng.pick(&[1usize, 4, 16, 64, 256])).max(k / 64);
         let mut acts = vec![];
         for (i, &c) in coupons.iter().enumerate() {
             if hashed {
